@@ -59,9 +59,15 @@ class Journal:
         return [e for e in self.log if e[0] == 1]
 
 
-def run_transition(names, cs, action, own, seed=0, script=None, share=None):
+def run_transition(names, cs, action, own, seed=0, script=None, share=None, sub=None):
     """-> (kind, value, log, tape): kind 'ok' (value = canonical next state) or 'err' (value = exception name)"""
-    s = wire.mkstate(cs, share=(seed % 3 == 1) if share is None else share)      # one case in three: equal stateless objects are shared instances
+    if sub is None and seed % 5 == 2:
+        # one case in five: all objects of one of the types present are instances of a USER SUBCLASS of that built-in type
+        present = sorted({c[0] for row in cs[0] for c in row} | {cs[3][0]})
+        present = [t for t in present if wire.grid_object_registry[t].__name__ not in ('NoneGridObject', 'Hidden')]
+        if present:
+            sub = present[(seed // 5) % len(present)]
+    s = wire.mkstate(cs, share=(seed % 3 == 1) if share is None else share, sub=sub)      # one case in three: equal stateless objects are shared instances
     with Journal(seed, script) as j:
         try:
             for n in names:
